@@ -342,6 +342,35 @@ def read_only_queries(cinco, cfg, path=(), root=None):
     return problem
 
 
+def shared_containers(cinco, cfgs):
+    """Positions (configuration name, path) that hold one and the same mutable list / typed
+    dict object.  Every field of every configuration owns its container (an untyped dict field and
+    free-form fields keep whatever object they were given: those are not looked at)."""
+    seen = {}
+    shared = []
+
+    def walk(name, cfg, path):
+        for key, value in list(cfg):
+            here = path + (key,)
+            if isinstance(value, cinco.Config):
+                walk(name, value, here)
+                continue
+            if isinstance(value, list) or (isinstance(value, dict) and type(value) is not dict):
+                where = (name,) + here
+                if id(value) in seen and seen[id(value)] != where:
+                    shared.append((seen[id(value)], where))
+                seen.setdefault(id(value), where)
+                if isinstance(value, list):
+                    for i, item in enumerate(value):
+                        if isinstance(item, cinco.Config):
+                            walk(name, item, here + ("[%d]" % i,))
+
+    for name, cfg in cfgs.items():
+        if cfg is not None:
+            walk(name, cfg, ())
+    return shared
+
+
 def canon_state(x):
     """Normal form of a specification state read back from TLC's JSON."""
     if isinstance(x, dict):
@@ -510,6 +539,10 @@ class World:
         if self.plaintexts is not None:
             KNOWN_PLAINTEXTS[:] = sorted(self.plaintexts)
         out = {}
+        shared = shared_containers(self.cinco, self.cfgs)
+        if shared:
+            a, b = shared[0]
+            return {"cfgs": {n: {"t": "shared-container", "why": "%s and %s hold the same list / typed dict object" % (".".join(a), ".".join(b))} for n in self.cfgs}}
         schema_now = schema_signature(self.cinco, self.schema)
         for n, c in self.cfgs.items():
             if c is None:
@@ -529,6 +562,31 @@ class World:
         for key in list(p) + [k]:
             s = s[key] if hasattr(s, "__getitem__") else None
         return s
+
+    def _field_desc(self, path):
+        d = self.desc
+        for key in path:
+            if not isinstance(d, dict) or d.get("kind") != "schema":
+                return None
+            d = dict(seq(d["fields"])).get(key)
+            if d is None:
+                return None
+        return d
+
+    def _probe_argument(self, val, path):
+        """After an assignment the caller goes on using the object it passed in: a list handed to a
+        list field, or a dict handed to a typed dict field, is copied / wrapped by the library,
+        so changing the caller's object afterwards must not be visible in the configuration."""
+        f = self._field_desc(path)
+        if not f:
+            return
+        try:
+            if f["kind"] == "list" and type(val) is list:
+                val.append("<appended by the caller after the call>")
+            elif f["kind"] == "dict" and type(val) is dict and f["valf"]["kind"] != "nofield":
+                val["<added by the caller after the call>"] = 1
+        except Exception:  # noqa
+            pass
 
     def _walk(self, cfg, p):
         for key in p:
@@ -553,10 +611,13 @@ class World:
                 if ev["v"]["t"] == "cfgobj":
                     factory = schema_field(cinco, self.schema, list(p) + [k])
                 val = value_to_py(cinco, ev["v"], factory, self.root)
-                if op == "SetAttr":
-                    setattr(self._walk(cfg, p), k, val)
-                else:
-                    cfg[".".join(list(p) + [k])] = val
+                try:
+                    if op == "SetAttr":
+                        setattr(self._walk(cfg, p), k, val)
+                    else:
+                        cfg[".".join(list(p) + [k])] = val
+                finally:
+                    self._probe_argument(val, list(p) + [k])
             elif op == "SetDictItem":
                 cfg[".".join(list(seq(ev["p"])) + [ev["k"], "".join(seq(ev["dk"]))])] = value_to_py(cinco, ev["v"], None, self.root)
             elif op == "Ctor":
@@ -582,6 +643,9 @@ class World:
                 cinco.reset_value(cfg, ".".join(list(seq(ev["p"])) + [ev["k"]]))
             elif op == "CopyTree":
                 cfg.load_tree(self.cfgs[ev["src"]].to_tree())
+            elif op == "AssignFrom":
+                p = seq(ev["p"])
+                setattr(self._walk(cfg, p), ev["k"], getattr(self._walk(self.cfgs[ev["src"]], p), ev["k"]))
             elif op == "RoundTrip":
                 data = cfg.dumps(ev["fmt"])
                 new = self.schema()
